@@ -74,8 +74,15 @@ func (rc *RunCtx) finishFrom(s *Sim) {
 type Property struct {
 	ID     string
 	Run    func(rc *RunCtx)
-	Strata func(tier string) [][]int32 // forced scenario-tape prefixes run before the random part
+	Strata func(tier string) [][]int32 // forced scenario-tape prefixes, cycled through on every other run
+	Sweep  func(tier string) []Stratum // finite sub-spaces enumerated completely, once each, before anything else
 	Note   string
+}
+
+// Stratum pins part of a scenario: a forced prefix of the scenario tape and/or named decisions.
+type Stratum struct {
+	Prefix []int32
+	Named  map[string]int32
 }
 
 var Registry = map[string]*Property{}
